@@ -157,7 +157,12 @@ func runScenario(t *testing.T, prop string, sc *Scenario, devs []vsched.Dev, kee
 			if s.Deadlock {
 				kind = "deadlock"
 			}
-			res.Violations = append(res.Violations, Violation{prop, kind + ":" + strings.Join(stuck, "+"), fmt.Sprintf("commands %v not finished at the horizon %v; blocked: %v", stuck, horizon, s.Blocked())})
+			if s.Livelock {
+				kind = "livelock"
+			}
+			res.Violations = append(res.Violations, Violation{prop, kind + ":" + strings.Join(stuck, "+"), fmt.Sprintf("commands %v not finished at the horizon %v; blocked: %v; %s", stuck, horizon, s.Blocked(), s.LivelockAt)})
+		} else if s.Livelock {
+			res.Violations = append(res.Violations, Violation{prop, "livelock:thread-spinning", fmt.Sprintf("more than %d scheduling steps without virtual time passing; last seen %s", vsched.MaxStepsPerInstant, s.LivelockAt)})
 		} else if !w.finished {
 			res.Infra = fmt.Sprintf("scenario %s did not finish within its horizon %v", sc.Name, horizon)
 		}
